@@ -13,7 +13,7 @@ CASE_TIMEOUT = 900
 RULE = ("bounded-exhaustive small-scope exploration of source texts, each a fresh run of the real assembler: (a) every token string of length "
         "<= 3 (quick) / 4 (thorough) over a 46-token alphabet (mnemonics of each operand class, directives, literals of every kind, every "
         "operator and bracket, punctuation, newline); (b) the product of 66 operand consumers (every operand-stub class in every position, "
-        "every metacommand parameter type, statement positions) x 185 operand shapes (every literal spelling, symbol forms, registers, "
+        "every metacommand parameter type, statement positions) x 194 operand shapes (every literal spelling, symbol forms, registers, "
         "bracket styles, strings, <n>, the 12 addressing syntaxes, every prefix/postfix/infix operator incl. erroring ones, calls, code "
         "blocks, empty, non-ASCII, out-of-range and huge numbers, stray punctuation) x 2 tails; (c) every definition graph on <= 3 names with "
         "6 definition forms x 7 uses (cyclic ones are the point); (d) size self-reference: 9 size-deferred statements x 9 later readers of "
@@ -54,7 +54,7 @@ SHAPES = [
     "\"я\"", "\"α\"", "'α", "\"αα",
     # addressing syntaxes
     "(r1)+", "@(r1)+", "-(r1)", "@-(r1)", "2(r1)", "@2(r1)", "x(r1)", "@x(r1)", "#1", "@#1", "@1", "@r1", "@(r1)", "#x", "#", "@", "@#", "#@1", "##1", "@@1",
-    "2+x(r1)", "-x(r1)", "(r1)-", "(r1)++", "--(r1)", "+(r1)", "(r1)(r2)", "1(2)", "x(1)", "r1(r2)", "(r1)+(r2)", "#(r1)+", "2(r1)+",
+    "(%x)", "2(%x)", "(%x)+", "-(%x)", "@(%x)+", "@2(%x)", "@(%x)", "x(%y)", "(%undef)", "2+x(r1)", "-x(r1)", "(r1)-", "(r1)++", "--(r1)", "+(r1)", "(r1)(r2)", "1(2)", "x(1)", "r1(r2)", "(r1)+(r2)", "#(r1)+", "2(r1)+",
     # operators
     "1+2", "1-2", "1*2", "1/2", "1%2", "1<<2", "1>>2", "1_2", "1 _ 2", "1&2", "1^2", "1|2", "1!2", "~1", "^C1", "^c1", "+x", "-x", "~x", "-(1)", "1+", "1*", "+", "*", "1 2", "1,",
     ",1", ",", "1+-2", "1--2", "x+.", ".+x", "x*x", "x/x", "x-x", "1+2*3", "1 $ 2", "x $ y",
